@@ -557,6 +557,44 @@ def enclosing_if(node):
     return cur if isinstance(cur, ast.If) else None
 
 
+def path_condition(node):
+    """the tests that hold where `node` stands: [(test ast, polarity)] for every enclosing if/elif/else and while"""
+    out = []
+    cur = node
+    par = getattr(cur, '_parent', None)
+    while par is not None and not isinstance(par, (ast.FunctionDef, ast.AsyncFunctionDef, ast.Lambda)):
+        if isinstance(par, ast.If):
+            if any(cur is x for x in par.body):
+                out.append((par.test, True))
+            elif any(cur is x for x in par.orelse):
+                out.append((par.test, False))
+        elif isinstance(par, ast.IfExp):
+            if cur is par.body:
+                out.append((par.test, True))
+            elif cur is par.orelse:
+                out.append((par.test, False))
+        elif isinstance(par, ast.BoolOp):
+            # a and b: b is evaluated only when a holds; a or b: only when a does not
+            k = next((i for i, v in enumerate(par.values) if v is cur), None)
+            if k:
+                for prev in par.values[:k]:
+                    out.append((prev, isinstance(par.op, ast.And)))
+        cur, par = par, getattr(par, '_parent', None)
+    return out
+
+
+def implied_at(repo, f, node, goal_text):
+    """True / False / None: does the path condition at `node` imply the goal formula (constants literal)?"""
+    from .rules import equiv, _Folder, _copy
+    pcs = path_condition(node)
+    parts = []
+    for t, pol in pcs:
+        ft = ast.unparse(_Folder(repo, f.module, f.cls, None).visit(_copy(t)))
+        parts.append('(%s)' % ft if pol else 'not (%s)' % ft)
+    pc = ' and '.join(parts) if parts else 'True'
+    return equiv('not (%s) or (%s)' % (pc, goal_text), 'True')
+
+
 def contract_class(repo, esc, ctor_ranges=True):
     """structural classification of an escaping raise/assert as a documented precondition. -> reason or None"""
     fi, node = esc.fi, esc.node
